@@ -427,7 +427,16 @@ class CLock(object):
             if self._held:
                 if not blocking:
                     return False
-                s.wait_until(lambda: not self._held, "lock:%s held by %s" % (self.name, self.owner))
+                if timeout is not None and timeout > 0:
+                    # timed acquire of a held lock: one more scheduling point; if the scheduler lets the holder run on
+                    # to its release first, the lock is taken, and if it resumes this thread while the lock is still
+                    # held, the timeout has expired (the holder was stalled for that long, e.g. in a blocked write).
+                    # The pinned tree has no timed acquire, so this branch only runs on changed code.
+                    s.point("acquire-timed", self.name)
+                    if self._held:
+                        return False
+                else:
+                    s.wait_until(lambda: not self._held, "lock:%s held by %s" % (self.name, self.owner))
             self.owner = s.me().name
         else:
             if self._held:
